@@ -24,6 +24,10 @@ PROPS['C01'] = dict(
              validate=[{'C': 15, 'CX': 15}, {'C': 6, 'CX': 11}]),
         dict(name='gfpart_2x2_r1', harness='h_gfpart', defs=['OUTER=2', 'INNER=2', 'REGIME=1'],
              split={'C': R(16), 'CX': R(16)}, witnesses=['computed', 'poles_merged'], validate=[{'C': 15, 'CX': 15}]),
+        dict(name='termmerge_gf', harness='h_termmerge', defs=['KIND=0', 'NADD=3'], split={'p0': R(2), 'p1': R(2), 'p2': R(2)},
+             witnesses=['done', 'merged_term_dropped', 'merged_term_kept', 'two_terms'], validate=[{'p0': 0, 'p1': 0, 'p2': 0, 'c0': 2, 'c1': -2, 'c2': 3, 'Pa': 1, 'Pb': '-1/2', 'zre': '1/3', 'zim': '1/2'}, {'p0': 0, 'p1': 1, 'p2': 0, 'c0': 2, 'c1': -2, 'c2': 3, 'Pa': 1, 'Pb': '-1/2', 'zre': '1/3', 'zim': '1/2'}]),
+        dict(name='termmerge_gf_4', harness='h_termmerge', defs=['KIND=0', 'NADD=4'], split={'p0': R(2), 'p1': R(2), 'p2': R(2), 'p3': R(2)},
+             witnesses=['done', 'merged_term_dropped', 'merged_term_kept', 'two_terms'], tiers=[T]),
     ])
 
 PROPS['C14'] = dict(
@@ -47,6 +51,8 @@ PROPS['C14'] = dict(
         dict(name='suscpart_2x2_r1_z0', harness='h_suscpart', defs=['OUTER=2', 'INNER=2', 'REGIME=1', 'ZCASE=0'],
              split={'A': R(16), 'B': R(16)}, witnesses=['computed', 'poles_merged'],
              validate=[{'A': 15, 'B': 15, 'wout0': 2, 'wout1': 3, 'win0': '1/2', 'win1': '1/4'}]),
+        dict(name='termmerge_susc', harness='h_termmerge', defs=['KIND=3', 'NADD=3'], split={'p0': R(2), 'p1': R(2), 'p2': R(2)},
+             witnesses=['done', 'merged_term_dropped', 'merged_term_kept', 'two_terms'], validate=[{'p0': 0, 'p1': 0, 'p2': 0, 'c0': 2, 'c1': -2, 'c2': 3, 'Pa': 1, 'Pb': '-1/2', 'zre': '1/3', 'zim': '1/2'}, {'p0': 0, 'p1': 1, 'p2': 0, 'c0': 2, 'c1': -2, 'c2': 3, 'Pa': 1, 'Pb': '-1/2', 'zre': '1/3', 'zim': '1/2'}]),
     ])
 
 PROPS['C18'] = dict(
@@ -313,14 +319,14 @@ PROPS['C02'] = dict(
           'symbolic matrix elements, energies, weights and beta; (D) each kind of term evaluates to its documented form at Matsubara '
           'numbers including the resonant branches, with the frequency triple (w1,w2,-w3) permuted by each of the six permutations; '
           'chaseIndices finds exactly the common inner indices for all sparsity patterns; (C02c, in the C08/C19 units) TwoParticleGF::prepare '
-          'builds exactly one part per permutation and block 4-cycle.',
+          'builds exactly one part per permutation and block 4-cycle; (T) the frequency table returned by TwoParticleGF::compute(clear, freqs) has one entry per triple and '
+          'equals on-demand evaluation, for all 16 components of the Hubbard atom incl. vanishing ones, terms kept or discarded; (M) reduction of like terms obeys the documented rule.',
     bounds={Q: 'blocks (1,1,1,1) fully symbolic (all 6 permutations); shapes (2,2,1,1), (1,2,2,1), (1,1,2,2), (2,1,1,2) with all sparsity '
                'patterns and concrete generic numbers; one term of each kind at 5 Matsubara triples x 6 permutations', T: 'same'},
     assumptions=['double read as exact real', 'the multi-term of the header documentation IS the triple Fourier integral (Hafermann et al. 2009; '
                  'uses w_j = w_i exp(-beta(E_j-E_i)) and exp(i beta w) = -1: mathematical step, not derivable without transcendental reasoning)',
                  'a part value is the sum of its terms (composition of B and D)'],
-    outside=['merging of terms whose poles agree within 1e-8 across quadruples (weighted pole average)', 'the frequency-table path (TwoParticleGF::compute) '
-             'and its MPI reduction (C06)', 'complex build'],
+    outside=['merging of terms whose poles agree within 1e-8 WITHOUT being equal (weighted pole average; merging of terms with equal poles is decided in the termmerge units)', 'the MPI reduction of the frequency table on several ranks (C06; the single-rank table path is unit 2pgftable)', 'complex build'],
     units=[dict(name='2pgfpart_1111', harness='h_2pgfpart', defs=[], split={'perm': R(6), 'O1': [0, 1], 'O2': [0, 1]},
                 witnesses=['computed', 'done', 'no_quadruple'], validate=[{'perm': 3, 'O1': 1, 'O2': 1, 'O3': 1, 'CX4': 1}]),
            dict(name='2pgfpart_2211_patterns', harness='h_2pgfpart', defs=['DIM1=2', 'DIM2=2'], concrete=True,
@@ -335,7 +341,21 @@ PROPS['C02'] = dict(
                 split={'O1': _P2(4), 'O2': _P2(4), 'O3': [6, 9, 15, 7, 11], 'CX4': [6, 9, 15, 13, 14], 'perm': [4]}, witnesses=['computed', 'done', 'two_quadruples'])] +
           [dict(name='2pgfterm_%d' % t, harness='h_2pgfterm', defs=['TERM=%d' % t], split={'perm': R(6), 'freq': R(5)},
                 witnesses=['done'] + (['resonant_branch', 'non_resonant_branch'] if t >= 2 else []),
-                validate=[{'perm': 2, 'freq': 1, 'P1': '1/3', 'P2': '-1/3', 'P3': '1/5'}]) for t in range(4)],
+                validate=[{'perm': 2, 'freq': 1, 'P1': '1/3', 'P2': '-1/3', 'P3': '1/5'}]) for t in range(4)] +
+          [
+           dict(name='2pgftable', harness='h_2pgftable', defs=[], split={'quad': R(16), 'clear': R(2)}, max_loop=200000,
+                witnesses=['done', 'vanishing_component', 'non_vanishing_component'],
+                validate=[{'quad': 5, 'clear': 0, 'beta': 2, 'w0_0': '1/10', 'w1_0': '2/5', 'w2_0': '3/10', 'w3_0': '1/5'},
+                          {'quad': 3, 'clear': 1, 'beta': 2, 'w0_0': '1/10', 'w1_0': '2/5', 'w2_0': '3/10', 'w3_0': '1/5'}]),
+           dict(name='2pgftable_symlevels', harness='h_2pgftable', defs=['SYME=1'], split={'quad': [3, 5, 6, 10], 'clear': R(2)}, max_loop=200000, tiers=[T],
+                witnesses=['done', 'vanishing_component', 'non_vanishing_component']),
+           dict(name='termmerge_nonres', harness='h_termmerge', defs=['KIND=1', 'NADD=3'], split={'p0': R(2), 'p1': R(2), 'p2': R(2)},
+                witnesses=['done', 'merged_term_dropped', 'merged_term_kept', 'two_terms'], validate=[{'p0': 0, 'p1': 0, 'p2': 0, 'c0': 2, 'c1': -2, 'c2': 3, 'Pa': 1, 'Pb': '-1/2', 'zre': '1/3', 'zim': '1/2'}, {'p0': 0, 'p1': 1, 'p2': 0, 'c0': 2, 'c1': -2, 'c2': 3, 'Pa': 1, 'Pb': '-1/2', 'zre': '1/3', 'zim': '1/2'}]),
+           dict(name='termmerge_res', harness='h_termmerge', defs=['KIND=2', 'NADD=3'], split={'p0': R(2), 'p1': R(2), 'p2': R(2)},
+                witnesses=['done', 'merged_term_dropped', 'merged_term_kept', 'two_terms'], validate=[{'p0': 0, 'p1': 0, 'p2': 0, 'c0': 2, 'c1': -2, 'c2': 3, 'd0': 1, 'd1': '1/2', 'd2': -3, 'Pa': 1, 'Pb': '-1/2', 'zre': '1/3', 'zim': '1/2'}]),
+           dict(name='termmerge_res_4', harness='h_termmerge', defs=['KIND=2', 'NADD=4'], split={'p0': R(2), 'p1': R(2), 'p2': R(2), 'p3': R(2)},
+                witnesses=['done', 'merged_term_dropped', 'merged_term_kept', 'two_terms'], tiers=[T]),
+          ],
 )
 
 PROPS['C15'] = dict(
@@ -424,8 +444,8 @@ PROPS['C16'] = dict(
                 max_loop=200000, tiers=[T], witnesses=['done', 'all_ranks_finished'])],
 )
 
-def _mpi_unit(name, nr, step, ncomp=1, clear='false', tiers=(Q, T), wit=('done',)):
-    return dict(name=name, harness='h_mpisteps', defs=['NRANKS=%d' % nr, 'STEP=%d' % step, 'NCOMP=%d' % ncomp, 'CLEAR=%s' % clear], models=[],
+def _mpi_unit(name, nr, step, ncomp=1, clear='false', tiers=(Q, T), wit=('done',), extra=()):
+    return dict(name=name, harness='h_mpisteps', defs=['NRANKS=%d' % nr, 'STEP=%d' % step, 'NCOMP=%d' % ncomp, 'CLEAR=%s' % clear] + list(extra), models=[],
                 mpiexec=nr, numeric_exp=True, max_loop=2000000, max_steps=200_000_000, tiers=list(tiers), witnesses=list(wit))
 
 
@@ -444,6 +464,7 @@ PROPS['C06'] = dict(
     units=[_mpi_unit('ham_p2', 2, 0), _mpi_unit('ham_p3', 3, 0),
            _mpi_unit('chi_nosplit_p2_c2', 2, 1, 2), _mpi_unit('chi_split_p2_c1', 2, 2, 1), _mpi_unit('chi_split_p2_c2', 2, 2, 2),
            _mpi_unit('chi_split_p2_c3', 2, 2, 3), _mpi_unit('chi_split_p3_c2', 3, 2, 2), _mpi_unit('chi_split_p2_c2_clear', 2, 2, 2, 'true'),
+           _mpi_unit('chi_split_p2_c2_vanishing', 2, 2, 2, extra=['VANISH=1']), _mpi_unit('chi_nosplit_p2_c2_vanishing', 2, 1, 2, extra=['VANISH=1']),
            _mpi_unit('chi_nosplit_p3_c1', 3, 1, 1, tiers=(T,)), _mpi_unit('chi_split_p3_c3', 3, 2, 3, tiers=(T,))] +
           [dict(u, name='c16_' + u['name']) for u in PROPS['C16']['units'] if u['name'] in ('dispatch_p2', 'dispatch_p3')],
 )
